@@ -69,13 +69,22 @@ class AsyncHTTP11Connection(AsyncConnectionInterface):
                 f"to {self._origin}"
             )
 
-        async with self._state_lock:
-            if self._state in (HTTPConnectionState.NEW, HTTPConnectionState.IDLE):
-                self._request_count += 1
-                self._state = HTTPConnectionState.ACTIVE
-                self._expire_at = None
-            else:
-                raise ConnectionNotAvailable()
+        try:
+            async with self._state_lock:
+                if self._state in (HTTPConnectionState.NEW, HTTPConnectionState.IDLE):
+                    self._request_count += 1
+                    self._state = HTTPConnectionState.ACTIVE
+                    self._expire_at = None
+                else:
+                    raise ConnectionNotAvailable()
+        except BaseException as exc:
+            # If we are cancelled before a new connection has been activated
+            # then nothing else is ever going to use it. Ensure that it is
+            # closed, rather than occupying a place in the connection pool.
+            if self._state == HTTPConnectionState.NEW:
+                with AsyncShieldCancellation():
+                    await self.aclose()
+            raise exc
 
         try:
             kwargs = {"request": request}
